@@ -106,6 +106,44 @@ fn run_completeness(cx: &mut CaseCx, case: &Value) {
   cx.outcome("completeness");
 }
 
+
+/// completeness for servers covering large tag sets (up to the full 8-bit tag space), through the restored public key
+fn run_completeness_big(cx: &mut CaseCx, case: &Value) {
+  let n = case["tags"].as_u64().unwrap() as usize;
+  cx.entropy(260 + n as u64);
+  let tags: Vec<u8> = (0..n).map(|t| t as u8).collect();
+  let server = match guard(|| pp::Server::new(tags.clone())) {
+    Ok(Ok(s)) => s,
+    _ => return,
+  };
+  let pk = server.get_public_key();
+  let restored = pk.serialize_to_bincode().ok().and_then(|b| pp::ServerPublicKey::load_from_bincode(&b).ok());
+  cx.nontrivial(n as u64);
+  let d = json!({"tag_set_size": n});
+  let k2 = match restored {
+    Some(k) => k,
+    None => {
+      cx.viol("C13/complete/pk-roundtrip", format!("the public key of a server with {} tags does not restore from its serialised form, so no evaluation can be verified after transfer", n), d);
+      return;
+    }
+  };
+  for &md in [0usize, n / 2, n - 1].iter() {
+    let md = md as u8;
+    let (blinded, _) = pp::Client::blind(b"big tag set");
+    cx.eval();
+    match guard(|| server.eval(&blinded, md, true)) {
+      Ok(Ok(ev)) => {
+        if guard(|| pp::Client::verify(&k2, &blinded, &ev, md)) != Ok(true) || guard(|| pp::Client::verify(&pk, &blinded, &ev, md)) != Ok(true) {
+          cx.viol("C13/complete/pk-roundtrip", format!("honest evaluation for tag {} of a {}-tag server does not verify (original or restored public key)", md, n), json!({"tag_set_size": n, "tag": md}));
+        } else {
+          cx.count("honest_verified", 1);
+        }
+      }
+      other => cx.viol("C13/eval-failed", format!("{:?}", other.map(|r| r.map(|_| ()).map_err(|e| e.to_string()))), json!({"tag_set_size": n, "tag": md})),
+    }
+  }
+}
+
 fn run_soundness(cx: &mut CaseCx, case: &Value) {
   let w = world(cx, 0);
   let w2 = world(cx, 1);
@@ -463,6 +501,13 @@ pub fn spec() -> PropSpec {
         gen: |tier| (0..if tier.thorough() { 4 } else { 2 }).map(|k| json!({"key": k})).collect(),
         run: run_completeness,
         min_counts: &[("honest_verified", 100)],
+      },
+      Check {
+        name: "completeness-large-tag-sets",
+        rule: "servers registering the first n tags for n in {1, 8, 128, 254, 255, 256}: public key serialised and restored, honest verifiable evaluations for the first, middle and last tag verify against both",
+        gen: |_| [1u64, 8, 128, 254, 255, 256].iter().map(|n| json!({"tags": n})).collect(),
+        run: run_completeness_big,
+        min_counts: &[("honest_verified", 15)],
       },
       Check {
         name: "soundness-matrix",
